@@ -1,5 +1,5 @@
 """One function per property: check_Cxx(ctx)."""
-import random, re
+import random, re, subprocess
 from common import *
 from scenario import *
 from runner_checks import *
@@ -708,3 +708,286 @@ def check_C07(ctx):
     ctx.coverage["samples"] = [" ; ".join(f[0]) for f in fam[:4]]
     ctx.coverage["evaluations"] = len(blocks) + len(fam)
     ctx.coverage["distinct_nontrivial"] = len({tuple(b) for b in blocks}) + len(fam)
+
+
+# ---- C05: constraints ---------------------------------------------------------------------------
+INT_NAMES = ["isEqualTo", "isNotEqualTo", "isGreaterThan", "isLessThan", "isNull", "isNonNull", "isTrue", "isFalse",
+             "assertEqual", "assertNotEqual", "assertTrue", "assertFalse", "assertEqualMsg", "assertNotEqualMsg", "isEqualToHex"]
+STR_NAMES = ["isEqualToString", "isNotEqualToString", "containsString", "doesNotContainString", "beginsWithString",
+             "doesNotBeginWithString", "endsWithString", "doesNotEndWithString", "assertStringEqual", "assertStringNotEqual",
+             "assertStringEqualMsg", "assertStringNotEqualMsg"]
+
+
+def int_oracle(name, a, e):
+    return {"isEqualTo": a == e, "isNotEqualTo": a != e, "isGreaterThan": a > e, "isLessThan": a < e, "isNull": a == 0, "isNonNull": a != 0,
+            "isTrue": a != 0, "isFalse": a == 0, "assertEqual": a == e, "assertNotEqual": a != e, "assertTrue": a != 0, "assertFalse": a == 0,
+            "assertEqualMsg": a == e, "assertNotEqualMsg": a != e, "isEqualToHex": a == e}[name]
+
+
+def str_oracle(name, a, e):
+    return {"isEqualToString": a == e, "isNotEqualToString": a != e, "containsString": e in a, "doesNotContainString": e not in a,
+            "beginsWithString": a.startswith(e), "doesNotBeginWithString": not a.startswith(e), "endsWithString": a.endswith(e),
+            "doesNotEndWithString": not a.endswith(e), "assertStringEqual": a == e, "assertStringNotEqual": a != e,
+            "assertStringEqualMsg": a == e, "assertStringNotEqualMsg": a != e}[name]
+
+
+def hexs(b):
+    return b.hex() if b else "-"
+
+
+def run_probe(exe, lines, env=None, timeout=600):
+    r = subprocess.run([exe], input=("\n".join(lines) + "\n").encode(), stdout=subprocess.PIPE, stderr=subprocess.PIPE, env=env, timeout=timeout)
+    return r.stdout.decode().split("\n")[:-1], r.returncode, r.stderr.decode("latin-1")[:3000]
+
+
+def check_C05(ctx):
+    lean_check(ctx)
+    rng = random.Random(ctx.seed * 1000 + 5)
+    impl = build_impl(ctx, asan=True)
+    exe_c = compile_harness(ctx, impl, "cmp_probe_c", ["cmp_probe.c"], out="cmp_probe_c")
+    exe_cpp = compile_harness(ctx, impl, "cmp_probe_cpp", ["cmp_probe.c"], cxx=True, extra=["-x", "c++"], out="cmp_probe_cpp")
+    B = [0, 1, -1, 2, -2, 2**31 - 1, 2**31, 2**31 + 1, -2**31, -2**31 - 1, -2**31 + 1, 2**32 - 1, 2**32, 2**32 + 1, -2**32, -2**32 + 1, -2**32 - 1,
+         2**63 - 1, -2**63, 2**63 - 2, -2**63 + 1, 2**62, -2**62, 2**33, 5 * 2**32, 3 * 2**31]
+    cases = []   # (line, expected bool, description)
+    for a in B:
+        for e in B:
+            for n in INT_NAMES:
+                if ctx.tier == "quick" and n in ("assertEqualMsg", "assertNotEqualMsg", "isEqualToHex") and (a + e) % 3:
+                    continue
+                cases.append((f"int {n} {a} {e}", int_oracle(n, a, e)))
+    for _ in range(sizes(ctx, 3000, 60000)):
+        a = rng.choice([rng.randrange(-2**63, 2**63), rng.choice(B) + rng.randrange(-3, 4)])
+        e = rng.choice([a, a + rng.choice([1, -1, 2**31, -2**31, 2**32, -2**32, 2**33]), rng.randrange(-2**63, 2**63), rng.choice(B)])
+        a = max(-2**63, min(2**63 - 1, a)); e = max(-2**63, min(2**63 - 1, e))
+        n = rng.choice(INT_NAMES)
+        cases.append((f"int {n} {a} {e}", int_oracle(n, a, e)))
+    # strings: all pairs over {a,b,%} up to a length, every constraint
+    alpha = [b"a", b"b", b"%"]
+    maxlen = sizes(ctx, 3, 4)
+    strs = [b""]
+    for L in range(1, maxlen + 1):
+        strs += [bytes(x) for x in __import__("itertools").product(b"ab%", repeat=L)]
+    for a in strs:
+        for e in strs:
+            if ctx.tier == "quick" and len(a) + len(e) > 5 and rng.random() < 0.6:
+                continue
+            for n in STR_NAMES:
+                if n.endswith("Msg") and rng.random() < 0.7:
+                    continue
+                cases.append((f"str {n} {hexs(a)} {hexs(e)}", str_oracle(n, a, e)))
+    for _ in range(sizes(ctx, 1500, 30000)):
+        a = bytes(rng.choice(b"ab%s x") for _ in range(rng.choice([0, 1, 5, 17, 64, 300])))
+        e = rng.choice([a, a[: rng.randrange(len(a) + 1)], a[rng.randrange(len(a) + 1):], a[1:-1] if len(a) > 2 else a, a + b"a", b"a" + a,
+                        bytes(rng.choice(b"ab%") for _ in range(rng.choice([0, 1, 2, 3])))])
+        n = rng.choice(STR_NAMES)
+        cases.append((f"str {n} {hexs(a)} {hexs(e)}", str_oracle(n, a, e)))
+    # memory: all sizes 1..16 with a difference at every offset (and none), NULL actual, both forms
+    for size in range(1, sizes(ctx, 17, 33)):
+        base = bytes(rng.randrange(256) for _ in range(size + 4))
+        for off in list(range(size + 2)) + [None]:
+            other = bytearray(base)
+            if off is not None:
+                other[off] ^= 0x5a
+            eq = bytes(other[:size]) == base[:size]
+            cases.append((f"mem pos {size} {base[:size].hex()} {bytes(other[:size]).hex()}", eq))
+            cases.append((f"mem neg {size} {base[:size].hex()} {bytes(other[:size]).hex()}", not eq))
+        cases.append((f"mem pos {size} {base[:size].hex()} NULL", False))
+        cases.append((f"mem neg {size} {base[:size].hex()} NULL", False))
+    lines = [c[0] for c in cases]
+    model = run_model(["cmp"], "\n".join(lines) + "\n").split("\n")[:-1]
+    ndis = nor = 0
+    for label, exe in (("C", exe_c), ("C++ (std::string overloads)", exe_cpp)):
+        got, rc, err = run_probe(exe, lines, env=asan_env())
+        if rc != 0 or len(got) != len(lines):
+            bad = lines[min(len(got), len(lines) - 1)]
+            ctx.violation(f"[C05] the {label} probe crashed (exit {rc}) on `{bad}`: " + " ".join(l for l in err.split("\n") if "ERROR" in l or "SUMMARY" in l)[:300],
+                          bad, found_input=True, facts={"crash": True})
+            continue
+        for (line, want), g, m in zip(cases, got, model):
+            if g != m:
+                ndis += 1
+                if ndis <= 3:
+                    ctx.oblige(f"correspondence C05 ({label})", False, f"`{line}`: model {m} impl {g}")
+            if g != ("1" if want else "0"):
+                nor += 1
+                if nor <= 6:
+                    ctx.violation(f"[C05] {label}: `{line}` {'passes' if g == '1' else 'fails' if g == '0' else 'reports ' + g}, the documented relation {'holds' if want else 'does not hold'}",
+                                  "# feed to harness/cmp_probe_c / cmp_probe_cpp\n" + line, found_input=True, facts={"name": line.split(' ')[1]})
+    ctx.oblige("correspondence C05: model and implementation agree on every operand pair (C and C++ entry points)", ndis == 0, f"{ndis} disagreements")
+    ctx.coverage["correspondence"] = {"cases": 2 * len(lines), "disagreements": ndis, "oracle_evaluations": 2 * len(lines), "oracle_failures": nor}
+    ctx.coverage["samples"] = [lines[0], lines[len(lines) // 2], lines[-1]]
+    ctx.coverage["evaluations"] = 2 * len(lines)
+    ctx.coverage["distinct_nontrivial"] = len(set(lines))
+    ctx.coverage["families"] = {"int_boundary_grid": len(B) ** 2 * len(INT_NAMES), "strings_up_to_length": maxlen, "memory_sizes": "1..16 x every offset"}
+
+
+# ---- C15: doubles -------------------------------------------------------------------------------
+import struct
+from fractions import Fraction
+
+
+def d2bits(x):
+    return struct.unpack("<Q", struct.pack("<d", x))[0]
+
+
+def bits2d(b):
+    return struct.unpack("<d", struct.pack("<Q", b & (2**64 - 1)))[0]
+
+
+def nextafter_bits(b, k):
+    """k ulps away in magnitude ordering (same sign)."""
+    m = b & (2**63 - 1)
+    m = max(0, min(0x7fefffffffffffff, m + k))
+    return (b & (1 << 63)) | m
+
+
+def gen_double_pairs(rng, n):
+    pairs = []
+    specials = [0.0, -0.0, 5e-324, -5e-324, 2.2250738585072014e-308, 1.7976931348623157e308, -1.7976931348623157e308, 1.0, -1.0, 0.1, 1e308, 9.999999999999999e307]
+    for _ in range(n):
+        kind = rng.random()
+        if kind < 0.15:
+            x = rng.choice(specials)
+        elif kind < 0.45:
+            k = rng.randrange(-307, 308)
+            x = float(10) ** k
+            x = bits2d(nextafter_bits(d2bits(x), rng.choice([0, 0, -1, 1, -2, 2, -3, 3])))
+            if rng.random() < 0.3: x = -x
+        elif kind < 0.55:
+            x = bits2d(rng.randrange(1, 2**52))          # subnormal
+            if rng.random() < 0.5: x = -x
+        else:
+            x = bits2d(rng.randrange(0, 0x7fefffffffffffff) | (rng.randrange(2) << 63))
+        k2 = rng.random()
+        if k2 < 0.15: y = x
+        elif k2 < 0.35: y = bits2d(nextafter_bits(d2bits(x), rng.choice([1, -1, 2, -2, 5, 100, -100])))
+        elif k2 < 0.75:
+            figs = rng.randrange(1, 16)
+            rel = Fraction(10) ** (-figs) * Fraction(rng.choice([1, 2, 5, 9, 10, 11, 50, 99, 100, 101, 1000]), 10)
+            try:
+                y = float(Fraction(x) * (1 + rel * rng.choice([1, -1])))
+            except OverflowError:
+                y = x
+        elif k2 < 0.85: y = -x
+        else: y = rng.choice(specials)
+        if y in (float("inf"), float("-inf")) or y != y: y = x
+        pairs.append((x, y))
+    return pairs
+
+
+ABS_TOL = Fraction(2) ** -1022 * 10**8
+
+
+def exact_T(x, y, n):
+    return max(abs(Fraction(x)), abs(Fraction(y))) * Fraction(10) ** (1 - n)
+
+
+def check_C15(ctx):
+    lean_check(ctx)
+    rng = random.Random(ctx.seed * 1000 + 15)
+    impl = build_impl(ctx, asan=False)
+    exe = compile_harness(ctx, impl, "cmp_probe_c", ["cmp_probe.c"], out="cmp_probe_c")
+    pairs = gen_double_pairs(rng, sizes(ctx, 4000, 120000))
+    names = ["eq", "ne", "lt", "gt", "legacyEq", "legacyNe", "legacyEqMsg", "legacyNeMsg", "mockEq", "mockNe", "mockLt", "mockGt"]
+    lines, meta = [], []
+    for (x, y) in pairs:
+        figs_list = [rng.randrange(1, 16)] if ctx.tier == "quick" else [rng.randrange(1, 16), rng.randrange(1, 16)]
+        for n in figs_list:
+            for nm in (names if rng.random() < 0.25 else ["eq", "ne", "lt", "gt"]):
+                lines.append(f"dbl {nm} {n} {d2bits(x):016x} {d2bits(y):016x}"); meta.append((nm, n, x, y))
+            # symmetry partner and a lower figure count
+            lines.append(f"dbl eq {n} {d2bits(y):016x} {d2bits(x):016x}"); meta.append(("eq", n, y, x))
+            m = rng.randrange(1, n + 1)
+            lines.append(f"dbl eq {m} {d2bits(x):016x} {d2bits(y):016x}"); meta.append(("eq", m, x, y))
+    state = {"ndis": 0, "nslack": 0, "nexact": 0, "shown": 0, "dis_cases": []}
+
+    def viol(what, line, facts):
+        if state["shown"] < 8:
+            if ctx.violation("[C15] " + what, "# feed to harness/cmp_probe_c (dbl <form> <figures> <bits of actual> <bits of expected>)\n" + line, found_input=True, facts=facts):
+                state["shown"] += 1
+
+    def near_threshold(x, y, n):
+        """is |x-y| within a relative 2^-40 of one of the decision thresholds, or the larger magnitude within 2^-48 of a power of ten?"""
+        d = abs(Fraction(x) - Fraction(y)); T = exact_T(x, y, n)
+        for thr in (T, T / 10, ABS_TOL):
+            if thr > 0 and abs(d - thr) <= thr * Fraction(1, 2**40):
+                return True
+        L = max(abs(Fraction(x)), abs(Fraction(y)))
+        if L > 0:
+            import math
+            k = math.floor(math.log10(L))
+            for kk in (k, k + 1):
+                p = Fraction(10) ** kk
+                if abs(L - p) <= p * Fraction(1, 2**48):
+                    return True
+        return False
+
+    def run_pass(lines, meta, record_dis):
+        got, rc, err = run_probe(exe, lines)
+        model = run_model(["dbl"], "\n".join(lines) + "\n").split("\n")[:-1]
+        if rc != 0 or len(got) != len(lines):
+            ctx.violation(f"[C15] the probe crashed (exit {rc}): {err[:300]}", lines[min(len(got), len(lines) - 1)], found_input=True, facts={"crash": True})
+            return
+        res = {}
+        for (nm, n, x, y), g in zip(meta, got):
+            res[(nm, n, d2bits(x), d2bits(y))] = g
+        for (nm, n, x, y), g, mm, line in zip(meta, got, model, lines):
+            m, mex = mm.split(" ")
+            if g != m:
+                if record_dis:
+                    state["ndis"] += 1
+                    state["dis_cases"].append((x, y, n))
+                    if state["ndis"] <= 3:
+                        ctx.oblige("correspondence C15: the binary64 instance of the model and the implementation agree on every pair", False, f"`{line}` model {m} impl {g}")
+            if g != mex and record_dis:
+                state["nexact"] += 1
+                if not near_threshold(x, y, n) and nm in ("eq", "ne", "legacyEq", "legacyNe", "legacyEqMsg", "legacyNeMsg", "mockEq", "mockNe"):
+                    state["nslack"] += 1
+            fx, fy = Fraction(x), Fraction(y)
+            d = abs(fx - fy); T = exact_T(x, y, n)
+            band = near_threshold(x, y, n)
+            if nm in ("eq", "legacyEq", "legacyEqMsg", "mockEq"):
+                sym = res.get(("eq", n, d2bits(y), d2bits(x)))
+                if nm == "eq" and sym is not None and sym != g:
+                    viol(f"not symmetric: equal({x!r}, {y!r}) at {n} figures is {g}, with operands swapped {sym}", line, {"law": "symmetry"})
+                if x == y and g != "1":
+                    viol(f"{x!r} is not equal to itself at {n} figures", line, {"law": "reflexive"})
+                if d > T and d >= ABS_TOL and g == "1":
+                    viol(f"accepted as equal at {n} figures although they differ by more than max(|x|,|y|)*10^(1-n): {x!r} vs {y!r}", line, {"f27_band": band, "law": "upper"})
+                if d < T / 10 and g == "0":
+                    viol(f"rejected at {n} figures although they differ by less than a tenth of the tolerance: {x!r} vs {y!r}", line, {"f27_band": band, "law": "lower"})
+                if nm == "eq" and g == "1":
+                    for mfig in range(1, n):
+                        r2 = res.get(("eq", mfig, d2bits(x), d2bits(y)))
+                        if r2 == "0":
+                            viol(f"equal at {n} figures but not at {mfig} figures: {x!r} vs {y!r}", line, {"f27_band": band, "law": "monotone"})
+            if nm in ("ne", "legacyNe", "legacyNeMsg", "mockNe"):
+                eqname = {"ne": "eq", "legacyNe": "legacyEq", "legacyNeMsg": "legacyEqMsg", "mockNe": "mockEq"}[nm]
+                r2 = res.get((eqname, n, d2bits(x), d2bits(y))) or res.get(("eq", n, d2bits(x), d2bits(y)))
+                if r2 is not None and r2 == g:
+                    viol(f"{nm} and {eqname} are not complements on {x!r}, {y!r} at {n} figures (both {g})", line, {"law": "complement"})
+            if nm in ("lt", "mockLt"):        # actual x < expected y
+                if fx < fy and g != "1": viol(f"is_less_than_double rejects the strictly ordered pair {x!r} < {y!r} at {n} figures", line, {"f27_band": band, "law": "lt-accept"})
+                if fx > fy + T and g == "1": viol(f"is_less_than_double accepts {x!r} although it exceeds {y!r} by more than the tolerance at {n} figures", line, {"f27_band": band, "law": "lt-reject"})
+            if nm in ("gt", "mockGt"):
+                if fx > fy and g != "1": viol(f"is_greater_than_double rejects the strictly ordered pair {x!r} > {y!r} at {n} figures", line, {"f27_band": band, "law": "gt-accept"})
+                if fx < fy - T and g == "1": viol(f"is_greater_than_double accepts {x!r} although it is below {y!r} by more than the tolerance at {n} figures", line, {"f27_band": band, "law": "gt-reject"})
+
+    run_pass(lines, meta, True)
+    if state["dis_cases"]:
+        # search: the full battery of laws around every pair on which model and implementation disagreed
+        l2, m2 = [], []
+        for (x, y, n) in state["dis_cases"][:300]:
+            for (p, q) in ((x, y), (y, x), (x, x), (y, y)):
+                for nm in names:
+                    for nn in sorted({n, max(1, n - 1), 1, min(15, n + 1)}):
+                        l2.append(f"dbl {nm} {nn} {d2bits(p):016x} {d2bits(q):016x}"); m2.append((nm, nn, p, q))
+        run_pass(l2, m2, False)
+    ndis, nslack, nexact = state["ndis"], state["nslack"], state["nexact"]
+    ctx.oblige("correspondence C15: the binary64 instance of the model and the implementation agree on every pair", ndis == 0, f"{ndis} disagreements")
+    ctx.oblige("the exact instance differs from the implementation on equality only inside the rounding band (2^-40 relative around a threshold, or a larger magnitude within 2^-48 of a power of ten)",
+               nslack == 0, f"{nslack} equality cases outside the band")
+    ctx.coverage["correspondence"] = {"cases": len(lines), "disagreements": ndis, "exact_instance_differs": nexact, "equality_outside_band": nslack, "oracle_evaluations": len(lines)}
+    ctx.coverage["samples"] = lines[:3]
+    ctx.coverage["evaluations"] = len(lines)
+    ctx.coverage["distinct_nontrivial"] = len(set(lines))
